@@ -489,6 +489,10 @@ def run(repo: Repo, rep: Report, tier: str) -> None:
     codec_fold_rule(repo, rep, "C08.R5", slots=("_read", "_read_array", "_read_0"))
     call_shortcut_rule(repo, rep, "C08.R6")
     generated_globals_rule(repo, rep, "C08.R7")
+    from .c07 import array_count_fold_rule
+
+    array_count_fold_rule(repo, rep, "C08.R8")
+
 
 
 
